@@ -33,6 +33,11 @@ def scenarios():
                 out.append((call, kind, mode))
     for mode in MODES:
         out.append(("none", "none", mode))
+    # the path handed to --fix is a symbolic link to the real file (a shared source tree linked into a project)
+    for call in CALLS:
+        for kind in ["OSError", "kill-before", "kill-after"]:
+            out.append((call, kind, 0o640, "symlink"))
+    out.append(("none", "none", 0o640, "symlink"))
     return out
 
 
@@ -99,13 +104,20 @@ def child(call, kind, target):
 
 
 def run_scenario(sc):
-    call, kind, mode = sc
+    call, kind, mode = sc[:3]
+    link = len(sc) > 3 and sc[3] == "symlink"
     d = tempfile.mkdtemp(prefix="c16_")
     try:
         target = os.path.join(d, "t.vhd")
-        with open(target, "w") as f:
+        real_file = target
+        if link:
+            os.mkdir(os.path.join(d, "shared"))
+            real_file = os.path.join(d, "shared", "t.vhd")
+        with open(real_file, "w") as f:
             f.write(ORIG)
-        os.chmod(target, mode)
+        os.chmod(real_file, mode)
+        if link:
+            os.symlink(real_file, target)
         from vsg import apply_rules  # noqa: F401  (import before forking: the child only patches and calls)
 
         pid = os.fork()
@@ -131,6 +143,12 @@ def run_scenario(sc):
                 problems.append("permission bits changed %o -> %o (content=%s)" % (mode, m, "fixed" if content == FIXED else "original"))
             if call == "none" and content != FIXED:
                 problems.append("no fault injected but the file was not updated")
+            if link:
+                rc = open(real_file).read()
+                if rc not in (ORIG, FIXED):
+                    problems.append("the file the link points to holds neither the original nor the complete fixed text: %r" % rc[:60])
+                if stat.S_IMODE(os.stat(real_file).st_mode) != mode:
+                    problems.append("permission bits of the file the link points to changed")
         killed = code == 137
         if not killed and os.path.exists(target + ".tmp"):
             problems.append("temporary file left behind after a non-fatal failure")
